@@ -104,7 +104,8 @@ def _init():
 def run():
     chk = Check("C04", "model_checking")
     t = tier()
-    sizes = {"small": (500, 6000), "random": (500, 8000), "skewed": (150, 1500), "mset": (150, 2000), "xml": (150, 2000)}
+    sizes = {"small": (500, 6000), "random": (500, 8000), "skewed": (150, 1500), "mset": (150, 2000), "msetdup": (120, 1500),
+             "xml": (150, 2000)}
     jobs = []
     for kind, (q, th) in sizes.items():
         cases = corpus.gen_cases(kind, q if t == "quick" else th, 4)
